@@ -417,6 +417,9 @@ def run_check(pid: str, tier: str, seed: int, nshards: Optional[int] = None) -> 
     for i, (sig, rec) in enumerate(sorted(unlisted.items(), key=lambda kv: -kv[1]["count"])):
         if any(sig == v for v in violations):
             continue
+        if i >= 25:  # every further signature is still counted, but not written out one by one
+            violations.append(sig)
+            continue
         tname = rec["target"].replace("regress:", "")
         t = tmap.get(tname)
         case = rec["first"]
@@ -431,6 +434,8 @@ def run_check(pid: str, tier: str, seed: int, nshards: Optional[int] = None) -> 
         print(f"  clause={rec['clause']} sig={sig} count={rec['count']} :: {short(rec['detail'], 400)}")
         violations.append(sig)
 
+    if len(unlisted) > 25:
+        print(f"  (+{len(unlisted) - 25} further unlisted signatures not written out)")
     # 5. evidence
     wall = time.time() - t0
     rule = getattr(mod, "RULE", "")
